@@ -2,3 +2,6 @@ import DrandProofs.C16
 import DrandProofs.C17
 import DrandProofs.C18
 import DrandProofs.C02
+import DrandProofs.C08
+import DrandProofs.C09
+import DrandProofs.C12Cache
